@@ -46,8 +46,8 @@ BOUNDS = {
             "assumptions": []},
     "C14": {"bounds": "both operands symbolic, lengths 0..=3, all 256 byte values; str/String operands ASCII; aliasing views of one 4-byte buffer for Bytes/Bytes; unwind 6 (10 for Hash)",
             "outside": "operands longer than 3 bytes, non-ASCII str operands", "assumptions": []},
-    "C15": {"bounds": "Debug: ALL byte strings of length 0..=3; hex: 1-2 symbolic bytes; serde: <= 3 symbolic bytes, concrete size hints; unwind 26",
-            "outside": "longer strings (per-byte independence of the formatter loop is a stated argument), real serde data formats", "assumptions": []},
+    "C15": {"bounds": "Debug: ALL byte strings of length 0..=3; hex: 1-2 symbolic bytes, plus one concrete 66-byte buffer (unwind 69) whose output pieces are each checked at a symbolic position; serde: <= 3 symbolic bytes, concrete size hints; unwind 26",
+            "outside": "longer strings (per-byte independence of the formatter loop is a stated argument; for hex, block-wise behaviour beyond 66 bytes), real serde data formats", "assumptions": []},
     "C16": {"bounds": "the bounds of the re-run families; ptr_map twin for addresses < 2^47", "outside": "release-profile execution (Kani forces overflow checks on), 32-bit targets",
             "assumptions": ["a build differs from the modelled dev build only by removed overflow checks / debug_asserts (all proved) and cfg!(debug_assertions) in vptr"]},
     "C17": {"bounds": "4 iterations of every consumer loop (no unwinding assertions: a liar may loop a consumer forever), remaining() lies in 0..=12 or usize::MAX, chunks = any sub-slice of an 8-byte array",
